@@ -69,7 +69,7 @@ func (d *driver) pick() (ev event, ok bool) {
 		if k == "SELECT" || k == "STATUS" {
 			a = []string{"A", "B"}[r.Intn(2)]
 		}
-		if k == "FETCH" {
+		if k == "FETCH" || k == "LIST" {
 			a = "all"
 		}
 		stateChanging := func(k string) bool { return k == "SELECT" || k == "UNSELECT" || k == "LOGOUT" || k == "LOGIN" }
